@@ -5,6 +5,16 @@ From Coq Require Import ZArith List Lia Bool.
 From LZ4V Require Import Spec.BlockSpec.
 Import ListNotations.
 
+(* linear-time list reversal (stdlib [rev] is quadratic once extracted) *)
+Definition rev' (l : list byte) : list byte := rev_append l [].
+Lemma rev'_rev l : rev' l = rev l.
+Proof. unfold rev'. symmetry. apply rev_alt. Qed.
+(* does [l] have at least [k] elements?  O(k), not O(length l) *)
+Fixpoint has_len (k : nat) (l : list byte) : bool :=
+  match k with O => true | S k' => match l with [] => false | _ :: r => has_len k' r end end.
+Lemma has_len_spec k : forall l, has_len k l = Nat.leb k (length l).
+Proof. induction k as [|k IH]; intros [|x l]; cbn [has_len length Nat.leb]; auto. Qed.
+
 (* window = the last [off] bytes in forward order = front ++ rev back *)
 Fixpoint cm_q (front back acc : list byte) (n : nat) : list byte :=
   match n with
@@ -12,7 +22,7 @@ Fixpoint cm_q (front back acc : list byte) (n : nat) : list byte :=
   | S n' =>
     match front with
     | b :: f => cm_q f (b :: back) (b :: acc) n'
-    | [] => match rev back with
+    | [] => match rev' back with
             | b :: f => cm_q f [b] (b :: acc) n'
             | [] => acc
             end
@@ -22,8 +32,8 @@ Fixpoint cm_q (front back acc : list byte) (n : nat) : list byte :=
 Definition copy_match_fast (rout : list byte) (off n : nat) : option (list byte) :=
   match n with
   | O => Some rout
-  | _ => if (Nat.ltb (length rout) off) || (Nat.eqb off 0) then None
-         else Some (cm_q (rev (firstn off rout)) [] rout n)
+  | _ => if negb (has_len off rout) || (Nat.eqb off 0) then None
+         else Some (cm_q (rev' (firstn off rout)) [] rout n)
   end.
 
 Lemma nth_error_rev_firstn_hd : forall (l : list byte) off,
@@ -68,7 +78,8 @@ Lemma cm_q_spec : forall n front back acc off,
   rev (firstn off acc) = front ++ rev back ->
   copy_match acc off n = Some (cm_q front back acc n).
 Proof.
-  induction n as [|n IH]; intros front back acc off Hoff Hw; simpl; [reflexivity|].
+  induction n as [|n IH]; intros front back acc off Hoff Hw; cbn [copy_match cm_q]; [reflexivity|].
+  rewrite rev'_rev.
   destruct (nth_error_rev_firstn_hd acc off Hoff) as [w [Hw1 Hne]].
   destruct (nth_error acc (off - 1)) as [b|] eqn:E; [|congruence].
   destruct front as [|x f].
@@ -86,13 +97,14 @@ Theorem copy_match_fast_ok : forall rout off n,
 Proof.
   intros rout off n Hoff. unfold copy_match_fast.
   destruct n as [|n]; [reflexivity|].
-  destruct (Nat.ltb (length rout) off) eqn:El; cbn [orb].
-  - apply PeanoNat.Nat.ltb_lt in El.
+  rewrite has_len_spec, rev'_rev.
+  destruct (Nat.leb off (length rout)) eqn:El; cbn [negb orb].
+  2:{ apply PeanoNat.Nat.leb_gt in El.
     assert (E : nth_error rout (off - 1) = None) by (apply nth_error_None; lia).
-    cbn [copy_match]. rewrite E. reflexivity.
-  - apply PeanoNat.Nat.ltb_ge in El.
-    destruct (Nat.eqb off 0) eqn:E0; [apply PeanoNat.Nat.eqb_eq in E0; lia|].
-    symmetry. apply (cm_q_spec (S n)); [lia|]. rewrite app_nil_r. reflexivity.
+    cbn [copy_match]. rewrite E. reflexivity. }
+  apply PeanoNat.Nat.leb_le in El.
+  destruct (Nat.eqb off 0) eqn:E0; [apply PeanoNat.Nat.eqb_eq in E0; lia|].
+  symmetry. apply (cm_q_spec (S n)); [lia|]. rewrite app_nil_r. reflexivity.
 Qed.
 
 (* fast variants of the sequence semantics *)
@@ -111,8 +123,8 @@ Fixpoint apply_seqs_fast (rout : list byte) (ss : list seq) : option (list byte)
   end.
 
 Definition run_seqs_fast (hist : list byte) (ss : list seq) (last : list byte) : option (list byte) :=
-  match apply_seqs_fast (rev hist) ss with
-  | Some rout => Some (skipn (length hist) (rev (rev_append last rout)))
+  match apply_seqs_fast (rev' hist) ss with
+  | Some rout => Some (skipn (length hist) (rev' (rev_append last rout)))
   | None => None
   end.
 
@@ -133,9 +145,9 @@ Qed.
 
 Theorem run_seqs_fast_ok hist ss last : run_seqs_fast hist ss last = run_seqs hist ss last.
 Proof.
-  unfold run_seqs_fast, run_seqs. rewrite apply_seqs_fast_ok.
+  unfold run_seqs_fast, run_seqs. rewrite rev'_rev, apply_seqs_fast_ok.
   destruct (apply_seqs (rev hist) ss); [|reflexivity].
-  rewrite rev_append_rev. reflexivity.
+  rewrite rev'_rev, rev_append_rev. reflexivity.
 Qed.
 
 Definition spec_decode_fast (hist blk : list byte) : option (list byte) :=
